@@ -11,7 +11,7 @@ import hypothesis
 from hypothesis import strategies as st, settings, seed, HealthCheck, Phase
 from hypothesis.stateful import RuleBasedStateMachine, rule, invariant, precondition, run_state_machine_as_test
 
-from ..runner import Failure, Result, HarnessError, _PropertyFailed, jsonable
+from ..runner import Failure, Result, HarnessError, RunawayError, _PropertyFailed, jsonable
 from .. import forkrng
 
 ID = 'C16'
@@ -55,6 +55,49 @@ def selection_law(ld):
     return lw, None
 
 
+class _BoundaryRNG(object):
+    """Concrete random source that replays the boundary outcome the symbolic uniform cannot represent: random() is
+    exactly 0.0 (a legal value of random.random(), which returns floats in [0.0, 1.0)); the first uniform pick lands on
+    the zero-weight candidate `first`, later picks on `then` (the heaviest candidate)."""
+
+    def __init__(self, first, then):
+        self.first, self.then, self.n = first, then, 0
+
+    def random(self):
+        return 0.0
+
+    def uniform(self, a, b):
+        return a
+
+    def choice(self, seq):
+        self.n += 1
+        if self.n > 1000:
+            raise RunawayError('choose_random does not terminate when every acceptance draw is 0.0')
+        want = self.first if self.n == 1 else self.then
+        for x in seq:
+            if x == want:
+                return x
+        return seq[0]
+
+    def __getattr__(self, name):
+        raise HarnessError('boundary-draw stub: the candidate set uses random.%s, which the stub does not model' % name)
+
+
+def boundary_draw(ld, model, where):
+    """zero-weight candidates are NEVER selected - also when the acceptance draw is exactly 0.0"""
+    zeros = [it for it, w in model.items() if w == 0]
+    heavy = max(model, key=lambda it: model[it])
+    for z in zeros[:2]:
+        rng = _BoundaryRNG(z, heavy)
+        with forkrng.installed(rng):
+            got = ld.choose_random()
+        if model.get(got, 0) == 0:
+            return [Failure('listdict:zero-weight-selected:acceptance-draw-0.0',
+                            '%s: with the uniform pick on %r (weight 0) and random()==0.0 exactly, choose_random returned %r; candidates %r'
+                            % (where, z, got, model))]
+    return []
+
+
 def check_state(ld, model, weighted, where):
     """-> list of Failure; compares the real candidate set with the dict model."""
     fails = []
@@ -91,6 +134,8 @@ def check_state(ld, model, weighted, where):
                 extra = set(lw) - set(repr(i) for i in items)
                 if extra:
                     fails.append(Failure('listdict:selects-absent', '%s: selects %r not in the candidate set' % (where, extra)))
+            if weighted and not fails and any(w == 0 for w in model.values()):
+                fails += boundary_draw(ld, model, where)
     except HarnessError:
         raise
     except Exception as e:
@@ -281,7 +326,26 @@ def run_machine(ctx, sub, weighted, max_examples, steps):
         ctx.violation(sub, case, failure)
 
 
+@st.composite
+def weighted_spec_case(draw):
+    """C03's generated rule sets, with every transition weighted (edge/node attribute or rate function) so that each
+    candidate set of Gillespie_simple_contagion is a weighted one; directed contact graphs carry different weights on u->v and v->u"""
+    from . import c03
+    case = draw(c03.spec_case())
+    for tr in case['spont'] + case['induced']:
+        if case.get('tiny') and tr[-1] not in ('label', 'fn'):
+            tr[-2] = tr[-2] / 2.0 ** -30        # spec_case scaled the weights by 2^-30 and the rates of its weighted transitions by 2^30
+        tr[-1] = draw(st.sampled_from(['label', 'fn']))
+    return case
+
+
 def replay(ctx, sub, case):
+    if sub == 'behavioural-generic':
+        from . import c03
+        return c03.prop_walk(case).failures
+    if sub == 'behavioural-complex':
+        from . import c15
+        return c15.prop_walk(case).failures
     if sub.startswith('machine'):
         return run_ops(case['weighted'], case['ops']).failures
     if sub == 'behavioural-SIS':
@@ -297,7 +361,10 @@ def run(ctx):
                 'random_removal/refresh of the running total over 9 items and a weight pool with repeats and extremes (1e-3..1e3); after every '
                 'step exact selection law (forking RNG) == w/sum(w), total_weight()==sum, len/in == dict model. '
                 'Non-trivial: weighted history in which the heaviest candidate was removed or replaced by a lighter '
-                'one while >=2 distinct weights remain (unweighted: >=4 ops); distinct by op-history digest.')
+                'one while >=2 distinct weights remain (unweighted: >=4 ops); distinct by op-history digest. With a zero-weight candidate '
+                'present the boundary outcome random()==0.0 is replayed concretely (zero weight must still be rejected). Behavioural half: '
+                'exact step law along histories of weighted Gillespie_SIR / Gillespie_SIS / Gillespie_simple_contagion (all transitions '
+                'weighted, directed graphs with different weights on reciprocal arcs) / Gillespie_complex_contagion.')
     ctx.assumptions = ['selections only when sum of weights > 0', 'increments are non-negative (property statement)',
                        'the candidate-set class is EoN.simulation._ListDict_ (anchor); randomness via EoN.simulation.random']
     if _get_class() is None:
@@ -310,5 +377,9 @@ def run(ctx):
         c01.behavioural_weighted(ctx, 'behavioural', quick)
         from . import c02
         c02.behavioural_weighted(ctx, 'behavioural-SIS', quick)
+        from . import c03, c15
+        from ..runner import run_hypothesis
+        run_hypothesis(ctx, 'behavioural-generic', weighted_spec_case(), c03.prop_walk, 200 if quick else 3000, rounds=2)
+        run_hypothesis(ctx, 'behavioural-complex', c15.model_case(), c15.prop_walk, 100 if quick else 2000, rounds=2)
     except ImportError:
         pass
